@@ -41,6 +41,8 @@ class StackModel:
                     return mine(interp.read_ref(env, a), d + 1)
                 except Exception:
                     return False
+            if isinstance(a, Agg) and d < 3:      # a sub-slice / tuple / Option of references into the stack
+                return any(mine(x, d + 1) for x in a.fields)
             return False
         if not any(mine(a) for a in args):
             return TOP
